@@ -1,8 +1,10 @@
-// instantiation TU for cxx2coq (C12): HashSet::pvFind(key) -- the generation walk -- for a slow-hash key with HashBucketLimP4
+// instantiation TU for cxx2coq (C12): HashSet::pvFind(key) -- the generation walk --, the static pvFind(indexCode, buckets, pred),
+// pvAddNogrow<false> and pvRelocateItems(Buckets*) for a slow-hash key with HashBucketLimP4
 // (BucketIterator = Item*, so iterator comparisons are plain pointer comparisons)
 #include "momo/HashSet.h"
 namespace c12find {
 struct H { size_t operator()(const uint64_t& k) const { return size_t(k); } };
 typedef momo::HashSet<uint64_t, momo::HashTraitsStd<uint64_t, H, std::equal_to<uint64_t>, momo::HashBucketLimP4<>>> Set;
 inline bool use(Set& s) { return !!s.Find(uint64_t(2)); }
+inline void use2(Set& s) { s.Insert(uint64_t(3)); s.Reserve(100); }
 }
